@@ -119,7 +119,7 @@ impl Prop for C19 {
             flushes,
             buffered,
             gate_calls: vec![],
-            trace: false,
+            trace: rng.chance(1, 8),
             inbound,
             reads,
             writes,
@@ -221,6 +221,18 @@ impl Prop for C19 {
     fn preludes(&self, sc: &StreamScenario) -> Vec<StreamScenario> {
         crate::streamprop::stream_preludes(sc)
     }
+    fn repro_variants(&self, sc: &StreamScenario) -> Vec<StreamScenario> {
+        // tracing keeps a process-wide callsite cache: a case found with `trace: false` while
+        // another worker had a subscriber reproduces on its own only with `trace: true`
+        if sc.trace {
+            vec![]
+        } else {
+            let mut v = sc.clone();
+            v.trace = true;
+            vec![v]
+        }
+    }
+
     fn rule(&self) -> String {
         "Each case is one tokio session: an inbound history (keep-alive rich), a link script with Pending/Ready on both halves, short stalls and short writes, and an application script that starts read(), polls it a scripted number of times (0..16) and drops it, interleaved with completed reads, writes and clock advances (the strobe example's select! pattern), then drains to Disconnected with no further cancellation. Oracle (differential, same real code): frame results of completed reads == those of the same session read without interruption; outgoing bytes form whole frames; as many keep-alive replies as the uninterrupted session. Non-trivial = at least one read future was actually dropped while pending; distinct by trace signature (which includes where each cancellation landed).".into()
     }
